@@ -195,6 +195,23 @@ func checkC04(rep *core.Report) {
 	}
 	// RPC path
 	checkRPCInsert(prog, r3)
+	// the peer path works on objects of its own: a reply decoded into package-level storage is shared by all fetches
+	// (gob re-uses the slices it finds there), so a template cached for one exporter is rewritten by the next fetch
+	r7 := rep.Rule("R04.7", "the peer-lookup path decodes every reply into a fresh object: it writes no package-level state", 1)
+	if rpc := prog.Func("ipfix", "RPC"); rpc != nil {
+		caches := map[types.Type]bool{}
+		if c := findTplCache(prog, "ipfix"); c.cacheT != nil {
+			caches[c.cacheT] = true
+		}
+		checkNoSharedWrites(prog, r7, []*ssa.Function{rpc}, 3, func(w sharedWrite) string {
+			if rt := w.fn.Signature.Recv(); rt != nil && caches[core.Deref(rt.Type())] {
+				return "method of the template cache (lock discipline: C10)"
+			}
+			return ""
+		}, "templates fetched for different exporters share that storage, so one exporter's template decides how another exporter's data is decoded")
+	} else {
+		r7.Undecided("ipfix.RPC", token.NoPos, "peer-lookup loop not found")
+	}
 }
 
 func intBits(b *types.Basic) int {
